@@ -109,7 +109,7 @@ impl Monitor for C09 {
         let mut cfg = GenCfg::full(ev, &leaf);
         cfg.funcs = vec![Func::Abs, Func::Sgn, Func::Floor, Func::Ceil, Func::Round, Func::Trunc, Func::Mod, Func::Pow, Func::Min, Func::Max];
         cfg.degrad = false;
-        cfg.sup_digits = vec!["2", "3", "0", "1", "10", "62", "63", "64"];
+        cfg.sup_digits = vec!["2", "3", "0", "1", "10", "62", "63", "64", "4", "5", "6", "7", "8", "9"];
         let phs = ph_pool(ev);
         let n = ctx.tier.pick(150_000u64, 3_000_000);
         for i in 0..n {
